@@ -59,6 +59,10 @@ impl<M: Matcher> Replacer<M> {
         // See the giant comment in 'find_iter_at_in_context' below for why we
         // do this dance.
         let is_multi_line = searcher.multi_line_with_matcher(&matcher);
+        // The line's own terminator, which is put back after the replacement
+        // (it need not be the searcher's: with a CRLF terminator a line may
+        // end in a bare `\n`).
+        let mut line_term: &[u8] = &[];
         if is_multi_line {
             if haystack[range.end..].len() >= MAX_LOOK_AHEAD {
                 haystack = &haystack[..range.end + MAX_LOOK_AHEAD];
@@ -70,6 +74,7 @@ impl<M: Matcher> Replacer<M> {
             // because of it.
             let mut m = Match::new(0, range.end);
             trim_line_terminator(searcher, haystack, &mut m);
+            line_term = &haystack[m.end()..range.end];
             haystack = &haystack[..m.end()];
         }
         {
@@ -98,6 +103,7 @@ impl<M: Matcher> Replacer<M> {
                 },
             )
             .map_err(io::Error::error_message)?;
+            dst.extend_from_slice(line_term);
         }
         Ok(())
     }
